@@ -189,7 +189,7 @@ def gen_arg(rng, pname, cname, L, method):
     if pname in ('bits', 'n', 'i'):
         v = rng.choice(ints)
         if method in ('__mul__', '__rmul__', '__imul__') or pname == 'n' and method.startswith('__'):
-            v = rng.choice([0, 1, -1, 2, 3, 7, min(10 ** 5, 10 ** 6 // max(L, 1))])
+            v = rng.choice([0, 1, -1, 2, 3, 7, min(2000, 10 ** 5 // max(L, 1))])
         if method == 'fromfile':
             return rng.choice([['none'], ['int', rng.choice([0, 1, 3, -1, 100])]])
         return ['int', v]
@@ -348,6 +348,7 @@ def judge(ctx, case):
                 if oc:
                     ctx.mismatch(f'C20|{oc}', case, f'{rname}.ctor: {recv!s:.100}')
                 return
+            watched = []          # immutable bitstrings met earlier in this sequence: they must never change later either
             for st in case['calls']:
                 name, aspecs, kspecs = st
                 set_before = util.get_options()
@@ -401,6 +402,14 @@ def judge(ctx, case):
                             except Exception:  # noqa: BLE001
                                 pass
                         break
+                for o, s0 in watched:
+                    if snap(o) != s0:
+                        fails.append('immutable-from-earlier-call-changed')
+                        watched = [(o2, snap(o2)) for o2, _ in watched]
+                        break
+                for o in involved[1:] + [x for x in results if type(x) in (Bits, ConstBitStream)][:3]:
+                    if type(o) in (Bits, ConstBitStream) and len(watched) < 12 and not any(o is w for w, _ in watched):
+                        watched.append((o, snap(o)))
                 now = util.get_options()
                 if now != set_before:
                     fails.append('options-changed')
@@ -449,7 +458,7 @@ def api():
     return API
 
 
-SETTABLE = ['uint', 'int', 'hex', 'bin', 'oct', 'bytes', 'float', 'floatle', 'uintle', 'intbe', 'bool', 'ue', 'se', 'uie', 'sie', 'bfloat',
+SETTABLE = ['bits', 'bits', 'bits', 'bits', 'bits', 'uint', 'int', 'hex', 'bin', 'oct', 'bytes', 'float', 'floatle', 'uintle', 'intbe', 'bool', 'ue', 'se', 'uie', 'sie', 'bfloat',
             'p4binary', 'e4m3mxfp', 'mxint', 'bits', 'u', 'i', 'f', 'pos', 'bitpos', 'bytepos', 'uint8', 'int12', 'hex8', 'float32', 'bin3',
             'len', 'length', 'pad', 'uintne', 'e2m1mxfp', 'e8m0mxfp', 'dtype', 'itemsize', 'trailing_bits', 'name', 'scale']
 SET_VALUES = [['int', 0], ['int', 1], ['int', -1], ['int', 255], ['int', 256], ['int', 10 ** 30], ['float', 0.5], ['float', float('nan')], ['float', 1e308],
@@ -494,9 +503,21 @@ def gen_case(ctx):
     a = api()
     rk = rng.choice(['Bits', 'BitArray', 'ConstBitStream', 'BitStream', 'BitArray', 'BitStream', 'Array', 'Dtype'])
     L = rng.choice([0, 1, 7, 8, 9, 16, 24, 33, 64, 100, 257])
+    golomb = False
     if rk in CLASSES:
         bits = util.content(rng, L)
         rspec = [rk, bits] + ([rng.randint(0, L)] if rk in util.STREAMS else [])
+        if rk in util.STREAMS and rng.random() < 0.3:
+            # self-delimiting codewords with the position at the start of one of them and the data cut inside the last one
+            from rv.model import codecs as K
+            cws = [K.GOLOMB_ENC[rng.choice(['ue', 'se', 'uie', 'sie'])](rng.choice([0, 1, 3, 4, 7, 8, 20, 100])) for _ in range(rng.randint(1, 5))]
+            starts = [sum(len(c) for c in cws[:j]) for j in range(len(cws))]
+            bits = ''.join(cws)
+            cut = rng.choice([0, 0, 1, 1, 2, 3])
+            bits = bits[:len(bits) - cut] if cut < len(bits) else bits
+            rspec = [rk, bits, min(rng.choice(starts), len(bits))]
+            L = len(bits)
+            golomb = True
     elif rk == 'Array':
         dt = rng.choice(['uint8', 'int8', 'float32', 'uint1', 'hex4', 'int64', 'bool', '>H', 'float16', 'bits3', 'uint12'])
         items = {'hex4': ['a', 'f', '0'], 'bits3': ['0b101'], 'bool': [True, False]}.get(dt, [1, 0, 1, 1])[:rng.randint(0, 4)]
@@ -510,6 +531,14 @@ def gen_case(ctx):
     calls = []
     for _ in range(rng.randint(5, 12) if ctx.quick else rng.randint(5, 30)):
         r = rng.random()
+        if golomb and rng.random() < 0.45:
+            code = lambda: rng.choice(['ue', 'se', 'uie', 'sie'])  # noqa: E731
+            calls.append(rng.choice([
+                ['readlist', [['str', code()]], {}], ['peeklist', [['str', code()]], {}], ['read', [['str', code()]], {}], ['peek', [['str', code()]], {}],
+                ['readlist', [['list', [['str', code()], ['str', code()]]]], {}], ['readlist', [['str', f'{code()}, {code()}, {code()}']], {}],
+                ['unpack', [['str', f'{code()}, {code()}']], {}], ['get:' + code(), [], {}], ['set:pos', [['int', rng.choice([0, 1, 2, 3, 5])]], {}],
+                ['readlist', [['str', f'2*{code()}']], {}], ['peeklist', [['list', [['int', 1], ['str', code()]]]], {}]]))
+            continue
         if r < 0.12 and props:
             calls.append(['get:' + rng.choice(props + ['uint8', 'int3', 'hex4', 'float32', 'bin2', 'u1', 'nonsense', 'uint0', 'bytes1', 'f16']), [], {}])
         elif r < 0.22 and rk in ('BitArray', 'BitStream', 'Array', 'ConstBitStream', 'Bits'):
@@ -698,7 +727,7 @@ def run(ctx):
         for c in DIRECTED_ENTRY:
             ctx.run_case(judge_entry, dict(c))
         # every public callable that exists must have been called at least once (checked via the op histogram)
-    n = ctx.scale(9000, 250000)
+    n = ctx.scale(54000, 400000)
     for i in range(n):
         c = gen_case(ctx)
         ctx.run_case(judge, c)
